@@ -74,5 +74,7 @@ static inline int64_t replay_get(const char *name, int idx) {
 #define STD_ABS(x) _Generic((x), float: fabsf, double: fabs, long double: fabsl, int: abs, long: labs, long long: llabs, short: abs, signed char: abs)(x)
 #define STD_MIN(a, b) ((b) < (a) ? (b) : (a))
 #define STD_MAX(a, b) ((a) < (b) ? (b) : (a))
+#define STD_FILL_N(first, n, v) do { for (size_t std_fill_i = 0; std_fill_i < (size_t)(n); ++std_fill_i) (first)[std_fill_i] = (v); } while (0)
+#define STD_FILL(first, last, v) do { for (__typeof__(first) std_fill_p = (first); std_fill_p != (last); ++std_fill_p) *std_fill_p = (v); } while (0)
 #define STD_SWAP(a, b) do { __typeof__(a) std_swap_tmp = (a); (a) = (b); (b) = std_swap_tmp; } while (0)
 #endif
